@@ -132,6 +132,28 @@ def collect():
     # "was_finished = stream.receiver.is_finished ... if event is not None and not was_finished": no event for a
     # frame that arrives after the receiving part finished
     flags.append(("EVENT_SUPPRESSED_WHEN_FINISHED", _mentions(hs, "was_finished")))
+    # ---- which field each receive-side limit check reads, and what a LOST delivery callback may touch -------------
+    # Limit has .value (credit granted = advertised), .used, .sent (bookkeeping: last value put on the wire, reset to 0
+    # when that packet is declared lost so that the frame is written again); a stream has max_stream_data_local and
+    # max_stream_data_local_sent.  The model (handle_stream / handle_reset_stream / get_or_create) reads the granted
+    # value in every check; code 0 = that field, 1 = the "sent" bookkeeping field, 2 = .used.  Any other shape: fail closed.
+    hg = _func(conn, "_get_or_create_stream")
+    if hg is None:
+        raise ValueError("C07 consts: _get_or_create_stream not found")
+    fields = [
+        ("CHECK_FIELD_CONN_STREAM", _limit_check_field(hs, "_handle_stream_frame", "conn")),
+        ("CHECK_FIELD_CONN_RESET", _limit_check_field(hr, "_handle_reset_stream_frame", "conn")),
+        ("CHECK_FIELD_MSD_STREAM", _limit_check_field(hs, "_handle_stream_frame", "stream")),
+        ("CHECK_FIELD_MSD_RESET", _limit_check_field(hr, "_handle_reset_stream_frame", "stream")),
+        ("CHECK_FIELD_COUNT", _limit_check_field(hg, "_get_or_create_stream", "count")),
+    ]
+    out += fields
+    od = _func(conn, "_on_connection_limit_delivery")
+    os_ = _func(conn, "_on_max_stream_data_delivery")
+    if od is None or os_ is None:
+        raise ValueError("C07 consts: delivery callbacks of MAX_* frames not found")
+    flags.append(("LOST_LIMIT_TOUCHES_ONLY_SENT",
+                  _assigned_attrs(od) == {"sent"} and _assigned_attrs(os_) == {"max_stream_data_local_sent"}))
     al = _enum(tls_tree, "AlertDescription")
     if "decode_error" not in al:
         raise ValueError("C07 consts: AlertDescription.decode_error missing")
@@ -139,6 +161,53 @@ def collect():
     ec2 = _enum(pkt, "QuicErrorCode")
     out.append(("E_CRYPTO_ERROR", _int(ec2["CRYPTO_ERROR"], "CRYPTO_ERROR")))
     return out, opt, flags
+
+
+_FIELD_CODE = {"value": 0, "sent": 1, "used": 2, "max_stream_data_local": 0, "max_stream_data_local_sent": 1}
+
+
+def _attr_chain(n):
+    """a.b.c -> ["a", "b", "c"]; None for anything else"""
+    parts = []
+    while isinstance(n, ast.Attribute):
+        parts.append(n.attr)
+        n = n.value
+    if isinstance(n, ast.Name):
+        parts.append(n.id)
+        return parts[::-1]
+    return None
+
+
+def _limit_check_field(fn, fname, level):
+    """the `if <lhs> > <limit field>: raise QuicConnectionError(...)` of the given level in handler fn -> field code"""
+    owner = {"conn": ["self", "_local_max_data"], "stream": ["stream"], "count": ["max_streams"]}[level]
+    hits = []
+    for n in ast.walk(fn):
+        if not (isinstance(n, ast.If) and any(isinstance(b, ast.Raise) for b in n.body)):
+            continue
+        t = n.test
+        if not (isinstance(t, ast.Compare) and len(t.ops) == 1 and len(t.comparators) == 1):
+            continue
+        ch = _attr_chain(t.comparators[0])
+        if ch is None or ch[:-1] != owner:
+            continue
+        if not isinstance(t.ops[0], ast.Gt):
+            raise ValueError("C07 consts: %s: %s-level limit check is not a '>' comparison" % (fname, level))
+        if ch[-1] not in _FIELD_CODE:
+            raise ValueError("C07 consts: %s: %s-level limit check reads unknown field %s" % (fname, level, ch[-1]))
+        hits.append(_FIELD_CODE[ch[-1]])
+    if len(hits) != 1:
+        raise ValueError("C07 consts: %s: expected exactly one %s-level limit check, found %d" % (fname, level, len(hits)))
+    return hits[0]
+
+
+def _assigned_attrs(fn):
+    out = set()
+    for n in ast.walk(fn):
+        tg = n.targets if isinstance(n, ast.Assign) else ([n.target] if isinstance(n, (ast.AugAssign, ast.AnnAssign)) else [])
+        for t in tg:
+            out.add(t.attr if isinstance(t, ast.Attribute) else "<other>")
+    return out
 
 
 def _func(tree, name):
